@@ -323,6 +323,10 @@ ERR_CLAUSES = [
     ('data-unknown-statement', '<div data-tal-contnt="a">k</div>'),
     ('data-bad-define', '<div data-tal-define="x">k</div>'),
     ('unknown-statement-renamed-prefix', '<div xmlns:t="http://xml.zope.org/namespaces/tal" t:contnt="a">k</div>'),
+    # an error in a part *before* an entity (entities only move the parts after them: known finding)
+    ('error-before-entity-define', '<div tal:define="x 1 +; h string:?a=1&amp;b=2">a</div>'),
+    ('error-before-entity-attributes', '<div tal:attributes="title 1 +; href string:?a=1&amp;b=2">a</div>'),
+    ('error-before-entity-define-2', '<p>k</p><div tal:define="y 2; x 1 +; h string:?a=1&amp;b=2">a</div>'),
     ('unknown-expression-type-content', '<div tal:content="foo: 1">a</div>'),
     ('unknown-expression-type-interpolation', '<div>\n <b>x</b>\n   ${foo: 1}</div>'),
     ('unknown-expression-type-later-alternative', '<div tal:define="x python: 1 | foo: 2">a</div>'),
